@@ -254,7 +254,10 @@ Record param := { pa_names : list string; pa_type : texpr }.
 Inductive mdoc :=
 | MDNone                           (* field.Doc == nil *)
 | MDBad                            (* a comment the request regexp does not match *)
-| MDReq (verb path : string).      (* shoot: <Verb>(<path>) ; path = the raw text between the parentheses *)
+| MDReq (verb path : string) (alias : list (string * string)).
+                                   (* shoot: <Verb>(<path>), path = the raw text between the parentheses; alias = the
+                                      well-formed {parameter:name} pairs parseAlias finds in the doc comment (distinct
+                                      keys and values; [] when there is no alias= directive or it holds no pair) *)
 
 (* what go/types says about an embedded element of an interface *)
 Inductive iembed :=
@@ -945,6 +948,13 @@ Fixpoint placeholders_aux (s : string) (acc : option string) : list string :=
            end
   end.
 Definition placeholders (path : string) : list string := placeholders_aux path None.
+
+(* realPathParams: a placeholder that is the alias of a parameter stands for that parameter *)
+Definition real_path_params (alias : list (string * string)) (path : string) : list string :=
+  map (fun name => match find (fun kv => snd kv =? name) alias with
+                   | Some kv => fst kv
+                   | None => name
+                   end) (placeholders path).
 Definition is_body_verb (m : string) : bool := mem m ["POST"; "PUT"; "PATCH"].
 
 (* handleExpr; the state is (a body parameter is bound, a query map is bound).  A struct
@@ -1010,11 +1020,11 @@ Definition rest_method (baddir : bool) (fs : list file) (f : file) (doc : mdoc) 
   match doc with
   | MDNone => Ok tt                                  (* warning, method ignored *)
   | MDBad => Ok tt                                   (* warning, method ignored *)
-  | MDReq verb path =>
+  | MDReq verb path alias =>
       let m := upper verb in
       do_ guard (path_ok path) DRestBadPath;
       do st <- rest_params baddir fs f m params (false, false);
-      do_ guard (negb (existsb (ptr_param params) (placeholders path))) DRestPtrPathParam;
+      do_ guard (negb (existsb (ptr_param params) (real_path_params alias path))) DRestPtrPathParam;
       do_ guard (negb (is_body_verb m) || fst st) DRestNeedsBody;
       (* resultValues: one entry per returned value; `a, b T` declares two *)
       let vals := flat_map (fun r => match pa_names r with
